@@ -46,6 +46,21 @@ int main(int argc, char** argv) {
       if (!(b == l) || b.isError()) violation("c15:LocalDateTime-parse", fmt("{\"text\":%s}", jstr(w).c_str()));
       c.add("local_datetimes");
     }
+    // the same month and day 2^5 / 2^6 / 2^7 years away printed immediately before: printing is a pure function of the value
+    for (int dy : {128, -128, 64, -64, 32, -32}) {
+      int oy = r.y + dy; if (oy < 1873 || oy > 2127 || (r.m == 2 && r.d == 29)) continue;
+      LocalDateTime o = LocalDateTime::forComponents(oy, r.m, r.d, 1, 2, 3);
+      { std::string wo = fmt("%04d-%02d-%02dT01:02:03", oy, r.m, r.d);   // both prints are judged (the date printed before o is r's own)
+        if (pr(o) != wo) violation("c15:LocalDateTime-print-depends-on-previous-print", fmt("{\"got\":%s,\"want\":%s,\"previous_year\":%d}", jstr(cp.s).c_str(), jstr(wo).c_str(), r.y)); }
+      LocalDateTime l = LocalDateTime::forComponents(r.y, r.m, r.d, 1, 2, 3);
+      std::string w = fmt("%04d-%02d-%02dT01:02:03", r.y, r.m, r.d);
+      if (pr(l) != w) violation("c15:LocalDateTime-print-depends-on-previous-print", fmt("{\"got\":%s,\"want\":%s,\"previous_year\":%d}", jstr(cp.s).c_str(), jstr(w).c_str(), oy));
+      OffsetDateTime od = OffsetDateTime::forComponents(r.y, r.m, r.d, 1, 2, 3, TimeOffset::forMinutes(90)); (void)pr(OffsetDateTime::forComponents(oy, r.m, r.d, 1, 2, 3, TimeOffset::forMinutes(90)));
+      if (pr(od) != w + "+01:30") violation("c15:OffsetDateTime-print-depends-on-previous-print", fmt("{\"got\":%s,\"want\":%s}", jstr(cp.s).c_str(), jstr(w + "+01:30").c_str()));
+      LocalDate ld0 = LocalDate::forComponents(oy, r.m, r.d); (void)pr(ld0);
+      if (pr(ld).substr(0, 10) != w.substr(0, 10)) violation("c15:LocalDate-print-depends-on-previous-print", fmt("{\"got\":%s}", jstr(cp.s).c_str()));
+      c.add("print_reorder_checks");
+    }
     // boundary dates x all offsets
     bool boundary = (r.d == 1 || r.d == r.dim || (r.m == 2 && r.d >= 28)) && (r.y % 16 == (int)(a.seed % 16) || r.y <= 1874 || r.y >= 2126 || r.y == 2000);
     if (boundary) {
